@@ -218,7 +218,7 @@ func (c Circle) Extrude() modeling.Mesh {
 			Thickness: r,
 		}
 	}
-	return polygon(c.Resolution, points, false)
+	return polygon(c.Resolution, points, c.ClosePath)
 }
 
 type CircleAlongSpline struct {
@@ -245,7 +245,7 @@ func (c CircleAlongSpline) Extrude() modeling.Mesh {
 			Thickness: r,
 		}
 	}
-	return polygon(c.CircleResolution, points, false)
+	return polygon(c.CircleResolution, points, c.ClosePath)
 }
 
 type CircleNode = nodes.Struct[modeling.Mesh, CircleNodeData]
